@@ -4,7 +4,8 @@
    alphabet is the regular expression goextract read from spdx.go on this run
    (Generated.Regexes.valid_id_chars_re). *)
 From Coq Require Import Permutation.
-From Apko Require Import Base.Prelude Base.Regex Generated.Regexes Model.Sbom Spec.SbomSpec Proofs.SbomProofs.
+From Apko Require Import Base.Prelude Base.Regex Generated.Regexes Model.Sbom Model.SbomRepair Spec.SbomSpec
+  Proofs.SbomProofs Proofs.SbomTwoTargets Proofs.SbomRepairProofs.
 Open Scope string_scope. Open Scope list_scope.
 
 (* validIDCharsRe is `class+`: its matches are the maximal runs of bytes of one
@@ -36,6 +37,13 @@ Theorem c11_validators_decide : forall d s,
   (valid_id_b s = true <-> ValidId s).
 Proof. intros d s. exact (conj (nodup_b_iff (ids d)) (conj (refs_resolve_b_iff d) (valid_id_b_iff s))). Qed.
 Print Assumptions c11_validators_decide.
+
+(* the agreement validator (exactly one element per installed apk, none for anything
+   else) decides its readable statement *)
+Theorem c11_matches_installed_decides : forall apks ps,
+  matches_installed_b apks ps = true <-> MatchesInstalled apks ps.
+Proof. exact matches_installed_b_iff. Qed.
+Print Assumptions c11_matches_installed_decides.
 
 (* the closure loop of copySBOMElements is run with fuel |relationships|+1 and
    never exhausts it; Generate as a whole never answers OutOfFuel, so no theorem
@@ -77,19 +85,69 @@ Theorem c11_refs_resolve_step : forall perm fs d pname pversion e d',
 Proof. exact process_internal_refs. Qed.
 Print Assumptions c11_refs_resolve_step.
 
-(* FULL STATEMENT (false): forall perm g d, Permutation.. -> generate perm g = Ok d -> RefsResolve d.
-   Refuted by a well-formed embedded SBOM that describes THREE elements carrying
-   the apk's name: in the map order third, second, first the last iteration of the
-   replace loop renames references to an element the second iteration removed
-   (finding C11-F3, tag dangling-ref/replace-loop-three-targets; replayed on the
-   real code by the harness corpus, class corpus/three-targets).  So SingleTarget
-   can be weakened to "at most two" at best; that is not proved. *)
+(* THE CASE ANALYSIS ON THE NUMBER OF DESCRIBED ELEMENTS CARRYING THE APK'S NAME, CLOSED.
+   References resolve for every installed set, every embedded relationship graph and
+   every map order when each embedded document Generate uses has at most TWO such
+   elements (AtMostTwoTargets) and, where it has two, neither of their ids is already
+   the id of a package carrying the apk's name that the document can hold at that
+   point: an element Generate mints itself or a package of the embedded document of an
+   earlier apk (TargetsFresh; vacuous for documents with at most one target, so this
+   contains c11_refs_resolve: c11_refs_resolve_embedded_covers_single).
+   The boundary is exact in both directions:
+   - two targets, one of them not fresh: c11_two_targets_refuted (finding C11-F4);
+   - three fresh targets: c11_replace_loop_refuted (finding C11-F3). *)
+Theorem c11_refs_resolve_embedded : forall perm g d, (forall l, Permutation (perm l) l) ->
+  AtMostTwoTargets g -> TargetsFresh g -> generate perm g = Ok d -> RefsResolve d.
+Proof. exact generate_refs_embedded. Qed.
+Print Assumptions c11_refs_resolve_embedded.
+
+Theorem c11_refs_resolve_embedded_covers_single : forall g, SingleTarget g -> AtMostTwoTargets g /\ TargetsFresh g.
+Proof. exact single_target_in_envelope. Qed.
+Print Assumptions c11_refs_resolve_embedded_covers_single.
+
+(* the two envelopes are decided by the booleans the correspondence uses to attribute findings *)
+Theorem c11_envelope_validators_decide : forall g,
+  (at_most_two_targets_b g = true <-> AtMostTwoTargets g) /\ (targets_fresh_b g = true <-> TargetsFresh g).
+Proof. intro g. exact (conj (at_most_two_targets_b_iff g) (targets_fresh_b_iff g)). Qed.
+Print Assumptions c11_envelope_validators_decide.
+
+(* TWO targets without freshness (false): foo-doc's embedded document brought two
+   elements named foo (ids X, Z) that it references; foo's own document describes two
+   elements named foo (ids Y, Z).  In the map order Y, Z the first iteration replaces
+   Z (the first package named foo) by Y and removes it, the second replaces X by Z:
+   the reference foo-doc -> X now points to Z, which is gone.  In the other order
+   everything resolves (c11_two_targets_order_dependent).  Finding C11-F4, tag
+   dangling-ref/replace-loop-two-targets-reused-id; replayed on the real code by the
+   harness corpus, class corpus/two-targets-reused-id. *)
+Theorem c11_two_targets_refuted : exists g d,
+  (forall k e, In (k, FDoc e) (g_fs g) -> RefsResolve e /\ IdsUnique e /\ Forall ValidId (ids e)) /\
+  AtMostTwoTargets g /\ generate (fun l => l) g = Ok d /\ ~ RefsResolve d.
+Proof. exact two_targets_refuted. Qed.
+Print Assumptions c11_two_targets_refuted.
+
+Theorem c11_two_targets_order_dependent : ~ TargetsFresh two_target_witness /\
+  exists d, generate (@rev string) two_target_witness = Ok d /\ RefsResolve d.
+Proof. exact (conj two_targets_not_fresh two_targets_other_order). Qed.
+Print Assumptions c11_two_targets_order_dependent.
+
+(* THREE targets (false even when all of them are fresh): a well-formed embedded SBOM
+   that describes three elements carrying the apk's name; in the map order third,
+   second, first the last iteration of the replace loop renames references to an
+   element the second iteration removed (finding C11-F3, tag
+   dangling-ref/replace-loop-three-targets; replayed on the real code by the harness
+   corpus, class corpus/three-targets). *)
 Theorem c11_replace_loop_refuted : exists g d,
   (forall k e, In (k, FDoc e) (g_fs g) -> RefsResolve e /\ IdsUnique e /\ Forall ValidId (ids e)) /\
   Permutation (@rev string (targets "foo" three_sbom)) (targets "foo" three_sbom) /\
   generate (@rev string) g = Ok d /\ ~ RefsResolve d.
 Proof. exact replace_loop_refuted. Qed.
 Print Assumptions c11_replace_loop_refuted.
+
+Theorem c11_three_targets_fresh : TargetsFresh three_target_witness /\
+  (exists a e, In a (g_apks three_target_witness) /\ located three_target_witness a = Some e /\
+               List.length (targets (a_name a) e) = 3%nat).
+Proof. exact three_targets_fresh. Qed.
+Print Assumptions c11_three_targets_fresh.
 
 (* the defect repaired by 494ce81 (replacePackage(id, id) deleted an element that
    had arrived earlier through another apk's SBOM): its replay now resolves *)
@@ -120,6 +178,57 @@ Theorem c11_one_per_apk_refuted : exists g, NoEmbedded g /\
     exists a, In a (g_apks g) /\ forall p, In p (d_pkgs d) -> ~ ElemOf a p.
 Proof. exact one_per_apk_refuted. Qed.
 Print Assumptions c11_one_per_apk_refuted.
+
+(* ---- THE PROPOSED REPAIRS (fixes/C11-F1.patch, fixes/C11-F3.patch; not in /repo) ----------
+   Model/SbomRepair.v is spdx.go with the patches applied; generate_r f1 f3 switches
+   them on separately; with both off it is today's model. *)
+Theorem c11_repair_off : forall perm g, generate_r false false perm g = generate perm g.
+Proof. exact repair_off. Qed.
+Print Assumptions c11_repair_off.
+
+(* with fixes/C11-F1.patch: c11_one_per_apk WITHOUT any hypothesis on the identifiers.
+   No embedded SBOMs, pairwise distinct (name, version): the packages are the
+   de-duplicated structural elements followed by exactly one element per installed
+   apk, in order, with its name, version and checksum; the id is today's id, with a
+   numeric suffix only when it was taken *)
+Theorem c11_one_per_apk_repaired : forall f3 perm g d,
+  NoEmbedded g -> NoDup (List.map (fun a => (a_name a, a_version a)) (g_apks g)) ->
+  generate_r true f3 perm g = Ok d ->
+  exists elems, d_pkgs d = dedup_pkgs [] (d_pkgs (base_doc g)) ++ elems /\
+    Forall2 (fun a p => ElemOf a p /\ exists sfx, p_id p = p_id (apk_package (nonce_of g) a) +++ sfx) (g_apks g) elems /\
+    MatchesInstalled (g_apks g) elems.
+Proof. exact generate_r_one_per_apk. Qed.
+Print Assumptions c11_one_per_apk_repaired.
+
+(* the repair changes nothing when today's identifiers are pairwise distinct (the
+   suite's golden SBOMs stay byte-identical) *)
+Theorem c11_repair_conservative : forall f3 perm g, NoEmbedded g -> NoDup (List.map p_id (own_elements g)) ->
+  generate_r true f3 perm g = generate perm g.
+Proof. exact repair_conservative. Qed.
+Print Assumptions c11_repair_conservative.
+
+(* with fixes/C11-F3.patch: references resolve for EVERY input: any number of
+   described elements, fresh or not, any order (not even a permutation is needed) *)
+Theorem c11_refs_resolve_repaired : forall f1 perm g d, (forall l x, In x (perm l) -> In x l) ->
+  generate_r f1 true perm g = Ok d -> RefsResolve d.
+Proof. exact generate_r_refs. Qed.
+Print Assumptions c11_refs_resolve_repaired.
+
+(* ids stay unique and the numbering loop always finds a free id (fuel |packages|+1) *)
+Theorem c11_repaired_ids_unique_no_fuel : forall f1 f3 perm g,
+  generate_r f1 f3 perm g <> OutOfFuel /\ forall d, generate_r f1 f3 perm g = Ok d -> IdsUnique d.
+Proof. intros f1 f3 perm g. exact (conj (generate_r_fuel f1 f3 perm g) (generate_r_ids_unique f1 f3 perm g)). Qed.
+Print Assumptions c11_repaired_ids_unique_no_fuel.
+
+(* the witnesses of the three refutations above under the repaired model *)
+Theorem c11_repaired_witnesses :
+  (forall g, In g [three_target_witness; two_target_witness; replace_self_witness] ->
+   forall perm, In perm [(fun l => l); @rev string] -> exists d, generate_r true true perm g = Ok d /\ RefsResolve d) /\
+  (exists d, generate_r true true (fun l => l) collide_witness = Ok d /\
+     List.map p_name (d_pkgs d) = ["sha256:ab"; "sha256:cd"; "gtk+"; "gtkC43"] /\ IdsUnique d /\
+     Forall (fun x => valid_id_b x = true) (ids d)).
+Proof. exact (conj repaired_witnesses collide_witness_repaired). Qed.
+Print Assumptions c11_repaired_witnesses.
 
 (* the image element carries the digest handed in as its name and (without the
    sha256: prefix) as its checksum and is the described element; every layer
@@ -176,3 +285,14 @@ Example c11_example_single_target :
                   g_apks := [ {| a_name := "foo"; a_version := "1.0-r0"; a_sum := [1]%N |} ];
                   g_fs := [("foo-1.0.spdx.json", FDoc foo_sbom)] |}.
 Proof. intros a [<-|[]] e H. vm_compute in H. inversion H; subst. vm_compute. repeat constructor. Qed.
+
+(* the envelope of c11_refs_resolve_embedded is inhabited by an input with a two-target document *)
+Example c11_example_two_fresh : AtMostTwoTargets two_fresh_example /\ TargetsFresh two_fresh_example /\
+  (exists a e, In a (g_apks two_fresh_example) /\ located two_fresh_example a = Some e /\ List.length (targets (a_name a) e) = 2%nat) /\
+  exists d, generate (@rev string) two_fresh_example = Ok d /\ RefsResolve d.
+Proof.
+  split; [apply at_most_two_targets_b_iff; vm_compute; reflexivity|].
+  split; [apply targets_fresh_b_iff; vm_compute; reflexivity|].
+  split; [eexists; eexists; split; [right; left; reflexivity | split; vm_compute; reflexivity]|].
+  eexists. split; [vm_compute; reflexivity | apply refs_resolve_b_iff; vm_compute; reflexivity].
+Qed.
